@@ -56,7 +56,7 @@ EXPECTED_PROBES = ['pass_content_over', 'pass_content_within', 'pass_content_equ
 
 MIB = be.MIB
 # strict reading switch: make the network pass deleting the descriptor blob of a *stored* stream a violation
-STRICT_STREAM_SD = os.environ.get('VERIF_C19_STRICT_SD') == '1'
+STRICT_STREAM_SD = os.environ.get('VERIF_C19_STRICT_SD', '1') == '1'
 
 
 # ---------------------------------------------------------------------------------------------------
